@@ -323,6 +323,13 @@ def install_formatter(S: Seams, fmt):
                     return Result(0, b"def broken(:\n  <<< not python >>>\n")
                 if act == "fmt_empty":
                     return Result(0, b"")
+                if act == "fmt_killed":
+                    # the formatter is killed by a signal (negative return code) after it flushed a part of its output that happens to
+                    # end at a statement boundary: the flushed text parses, but it is not the answer
+                    src_text = input.decode("utf-8") if isinstance(input, bytes) else str(input)
+                    cut = src_text.rfind("\n\ndef ", 0, max(len(src_text) * 2 // 3, 1))
+                    partial = src_text[: cut + 1] if cut > 0 else src_text[: src_text.find("\n") + 1]
+                    return Result(-9, partial.encode("utf-8"), b"")
                 text = input.decode("utf-8")
                 try:
                     out = stub_format(stub, mode, text)
